@@ -2,6 +2,7 @@ package an
 
 import (
 	"fmt"
+	"go/token"
 	"go/types"
 	"regexp"
 	"sort"
@@ -989,4 +990,211 @@ func fieldName(fa *ssa.FieldAddr) string {
 		return st.Field(fa.Field).Name()
 	}
 	return ""
+}
+
+// PopRule: the converters keep one stack per nestable construct. Every stack an opener
+// pushes is popped by the matching closer, and a pop removes exactly the top element
+// (slices.Delete(s, len(s)-1, len(s)) or s[:len(s)-1]). A closer that pops nothing (or
+// not the top) leaves the converter "inside" the construct for the rest of the program:
+// names are mangled as locals at top level, labels of a finished loop are reused.
+func PopRule(w *World, role string, r *Result, rule string, openers ...string) {
+	fns := w.Funcs(role)
+	type site struct {
+		fn  *ssa.Function
+		pos token.Pos
+		ok  bool
+		why string
+	}
+	pushes := map[string][]site{}
+	pops := map[string][]site{}
+	fieldOf := func(addr ssa.Value) (string, bool) {
+		fa, ok := addr.(*ssa.FieldAddr)
+		if !ok {
+			return "", false
+		}
+		n := fieldName(fa)
+		return n, n != ""
+	}
+	loadsField := func(v ssa.Value, f string) bool {
+		u, ok := v.(*ssa.UnOp)
+		if !ok {
+			return false
+		}
+		n, ok := fieldOf(u.X)
+		return ok && n == f
+	}
+	lenMinusOne := func(v ssa.Value, f string) bool {
+		bo, ok := v.(*ssa.BinOp)
+		if !ok || bo.Op != token.SUB {
+			return false
+		}
+		k, ok := bo.Y.(*ssa.Const)
+		if !ok || k.Value == nil || k.Int64() != 1 {
+			return false
+		}
+		c, ok := bo.X.(*ssa.Call)
+		if !ok {
+			return false
+		}
+		bi, ok := c.Call.Value.(*ssa.Builtin)
+		return ok && bi.Name() == "len" && len(c.Call.Args) == 1 && loadsField(c.Call.Args[0], f)
+	}
+	for _, fn := range fns {
+		for _, b := range fn.Blocks {
+			for _, ins := range b.Instrs {
+				st, ok := ins.(*ssa.Store)
+				if !ok {
+					continue
+				}
+				f, ok := fieldOf(st.Addr)
+				if !ok {
+					continue
+				}
+				if _, isSlice := st.Val.Type().Underlying().(*types.Slice); !isSlice {
+					continue
+				}
+				switch v := st.Val.(type) {
+				case *ssa.Call:
+					if bi, ok := v.Call.Value.(*ssa.Builtin); ok && bi.Name() == "append" && len(v.Call.Args) == 2 && loadsField(v.Call.Args[0], f) {
+						pushes[f] = append(pushes[f], site{fn: fn, pos: st.Pos(), ok: true})
+						continue
+					}
+					callee := v.Call.StaticCallee()
+					if callee != nil && strings.HasPrefix(callee.String(), "slices.Delete") && len(v.Call.Args) == 3 && loadsField(v.Call.Args[0], f) {
+						i, j := v.Call.Args[1], v.Call.Args[2]
+						exact := lenMinusOne(i, f)
+						if exact {
+							jb, ok := j.(*ssa.BinOp)
+							k, _ := func() (*ssa.Const, bool) {
+								if !ok {
+									return nil, false
+								}
+								c, ok2 := jb.Y.(*ssa.Const)
+								return c, ok2
+							}()
+							exact = ok && jb.Op == token.ADD && jb.X == i && k != nil && k.Value != nil && k.Int64() == 1
+						}
+						why := "slices.Delete(s, len(s)-1, len(s))"
+						if !exact {
+							why = fmt.Sprintf("slices.Delete(%s, %s, %s) does not remove exactly the top element", f, i.String(), j.String())
+							if bi, ok := i.(*ssa.BinOp); ok {
+								if bj, ok := j.(*ssa.BinOp); ok {
+									why = fmt.Sprintf("slices.Delete(%s, %s %s %s, %s %s %s) does not remove exactly the top element", f, bi.X.Name(), bi.Op, bi.Y, bj.X.Name(), bj.Op, bj.Y)
+								} else if j == i {
+									why = fmt.Sprintf("slices.Delete(%s, i, i) removes nothing", f)
+								}
+							}
+						}
+						pops[f] = append(pops[f], site{fn: fn, pos: st.Pos(), ok: exact, why: why})
+					}
+				case *ssa.Slice:
+					if loadsField(v.X, f) && v.Low == nil && v.High != nil {
+						exact := lenMinusOne(v.High, f)
+						why := "s[:len(s)-1]"
+						if !exact {
+							why = "re-slicing that does not remove exactly the top element"
+						}
+						pops[f] = append(pops[f], site{fn: fn, pos: st.Pos(), ok: exact, why: why})
+					}
+				}
+			}
+		}
+	}
+	method := func(name string) *ssa.Function {
+		for _, fn := range fns {
+			if fn.Name() == name && fn.Signature.Recv() != nil {
+				return fn
+			}
+		}
+		return nil
+	}
+	// output buffers (read when the script is dumped) are append-only by design
+	output := map[string]bool{}
+	if dump := method("Dump"); dump != nil {
+		seen := map[*ssa.Function]bool{}
+		var walk func(fn *ssa.Function)
+		walk = func(fn *ssa.Function) {
+			if fn == nil || seen[fn] || fn.Blocks == nil {
+				return
+			}
+			seen[fn] = true
+			for _, b := range fn.Blocks {
+				for _, ins := range b.Instrs {
+					if fa, ok := ins.(*ssa.FieldAddr); ok {
+						output[fieldName(fa)] = true
+					}
+					if c, ok := ins.(ssa.CallInstruction); ok {
+						if callee := c.Common().StaticCallee(); callee != nil && callee.Pkg == fn.Pkg {
+							walk(callee)
+						}
+					}
+				}
+			}
+		}
+		walk(dump)
+	}
+	var fields []string
+	for f := range pushes {
+		if !output[f] {
+			fields = append(fields, f)
+		}
+	}
+	sort.Strings(fields)
+	// restrict to the stacks pushed by the given openers
+	if len(openers) > 0 {
+		var keep []string
+		for _, f := range fields {
+			for _, o := range openers {
+				if op := method(o); op != nil {
+					for _, p := range pushes[f] {
+						if reachFn(op, p.fn, map[*ssa.Function]bool{}) {
+							keep = append(keep, f)
+						}
+					}
+				}
+			}
+		}
+		fields = uniq(keep)
+	}
+	for _, f := range fields {
+		for i, p := range pops[f] {
+			key := fmt.Sprintf("pop:%s:%s:%s#%d", role, f, FuncName(p.fn), i+1)
+			if p.ok {
+				r.Ok(rule, key, w.Pos(p.pos), "removes exactly the top element: "+p.why)
+			} else {
+				r.Bad(rule, key, w.Pos(p.pos), p.why+": the stack "+f+" keeps the entry of a construct that has ended")
+			}
+		}
+		// pairing: the closer of every opener that pushes f pops f
+		for _, pair := range [][2]string{{"FuncStart", "FuncEnd"}, {"ForStart", "ForEnd"}, {"IfStart", "IfEnd"}} {
+			op, cl := method(pair[0]), method(pair[1])
+			if op == nil || cl == nil {
+				continue
+			}
+			pushed := false
+			for _, p := range pushes[f] {
+				if reachFn(op, p.fn, map[*ssa.Function]bool{}) {
+					pushed = true
+				}
+			}
+			if !pushed {
+				continue
+			}
+			popped := false
+			for _, p := range pops[f] {
+				if reachFn(cl, p.fn, map[*ssa.Function]bool{}) {
+					popped = true
+				}
+			}
+			key := fmt.Sprintf("pop:%s:%s:%s/%s", role, f, pair[0], pair[1])
+			if popped {
+				r.Ok(rule, key, w.Pos(cl.Pos()), fmt.Sprintf("%s pushes %s and %s pops it", pair[0], f, pair[1]))
+			} else {
+				r.Bad(rule, key, w.Pos(cl.Pos()), fmt.Sprintf("%s pushes an entry on %s but %s never removes it", pair[0], f, pair[1]))
+			}
+		}
+	}
+	if len(fields) == 0 {
+		r.Bad(rule, "pop:"+role+":none", "-", "no construct stack found in the converter")
+	}
 }
